@@ -131,4 +131,163 @@ theorem allOK_get : ∀ (a : List HOp) (op : HOp) (b : List HOp) (pre : List (In
       obtain ⟨r', h1, h2⟩ := allOK_get a op b (pre ++ [(x, y, p)]) rs h.2
       exact ⟨r', by simpa using h1, by simpa [addsOf] using h2⟩
 
+/-! ### histories in which calls may fail and the object is used on -/
+
+instance (c : Int × Int × Int) : Decidable (InRange c) := by unfold InRange; exact inferInstance
+
+/-- the adds of a history that are in range (the others raise and change nothing) -/
+def goodAdds : List HOp → List (Int × Int × Int)
+  | [] => []
+  | .add x y p :: r => if InRange (x, y, p) then (x, y, p) :: goodAdds r else goodAdds r
+  | .read :: r => goodAdds r
+
+/-- every call paired with the in-range cores added before it -/
+def annotF (pre : List (Int × Int × Int)) : List HOp → List (List (Int × Int × Int) × HOp)
+  | [] => []
+  | .add x y p :: r =>
+    (pre, .add x y p) :: annotF (if InRange (x, y, p) then pre ++ [(x, y, p)] else pre) r
+  | .read :: r => (pre, .read) :: annotF pre r
+
+/-- the result a call must have, failing calls included: an in-range `add_core` returns `False`, any
+other raises `ValueError`; a read-out selects exactly the in-range cores added so far, each once -/
+def ResOKF (a : List (Int × Int × Int) × HOp) (res : HRes) : Prop :=
+  match a.2, res with
+  | .add x y p, .added b => InRange (x, y, p) ∧ b = false
+  | .add x y p, .raised e => ¬ InRange (x, y, p) ∧ e = .valueError
+  | .read, .pairs l => Exact (a.1.map toNat3) l
+  | _, _ => False
+
+def AllOKF : List (List (Int × Int × Int) × HOp) → List HRes → Prop
+  | [], [] => True
+  | a :: as, r :: rs => ResOKF a r ∧ AllOKF as rs
+  | _, _ => False
+
+theorem histStep_bad (t0 : RTree) (rs0 : List HRes) (cx cy cp : Int) (h0 : RootOK t0)
+    (hc : ¬ InRange (cx, cy, cp)) :
+    histStep 4 (t0, rs0) (.add cx cy cp) = .ok (t0, rs0 ++ [.raised .valueError]) := by
+  by_cases hneg : cx < 0 ∨ cy < 0 ∨ cp < 0
+  · simp only [histStep, if_pos hneg]
+  · have he := addRoot_err t0 (cx, cy, cp) h0 hc
+    simp only [addRoot, if_neg hneg] at he
+    simp only [histStep, if_neg hneg]
+    cases hq : addCore 4 t0 cx.toNat cy.toNat cp.toNat with
+    | error e => rw [hq] at he; cases he; rfl
+    | ok v => rw [hq] at he; cases he
+
+theorem histStep_good (t0 : RTree) (rs0 : List HRes) (pre0 : List (Int × Int × Int)) (cx cy cp : Int)
+    (h0 : RootOK t0) (hh : ∀ x y p, holds 4 t0 x y p ↔ (x, y, p) ∈ pre0.map toNat3)
+    (hc : InRange (cx, cy, cp)) :
+    ∃ t1, histStep 4 (t0, rs0) (.add cx cy cp) = .ok (t1, rs0 ++ [.added false]) ∧ RootOK t1 ∧
+      addRoot t0 cx cy cp = .ok t1 ∧
+      ∀ x y p, holds 4 t1 x y p ↔ (x, y, p) ∈ (pre0 ++ [(cx, cy, cp)]).map toNat3 := by
+  obtain ⟨t1, e1, h1, hh1⟩ := addRoot_spec t0 (cx, cy, cp) h0 hc
+  have hneg : ¬ (cx < 0 ∨ cy < 0 ∨ cp < 0) := by
+    simp only [InRange] at hc; omega
+  have hcore : ∃ b, addCore 4 t0 cx.toNat cy.toNat cp.toNat = .ok (t1, b) := by
+    simp only [addRoot, if_neg hneg] at e1
+    cases hq : addCore 4 t0 cx.toNat cy.toNat cp.toNat with
+    | error e => rw [hq] at e1; cases e1
+    | ok v =>
+      obtain ⟨t', b⟩ := v
+      rw [hq] at e1
+      cases e1
+      exact ⟨b, rfl⟩
+  obtain ⟨b, hcore⟩ := hcore
+  have hb : b = false := by
+    obtain ⟨hI, h0x, h0y, h0l⟩ := h0
+    have hin : inSq t0.x0 t0.y0 t0.lv cx.toNat cy.toNat := by
+      rw [h0x, h0y, h0l]; simp only [inSq, scale, InRange] at hc ⊢; omega
+    obtain ⟨t', full, heq, _, _, _, _, hfull, _, _⟩ :=
+      addCore_spec 4 t0 cx.toNat cy.toNat cp.toNat hI hin (by simp only [InRange] at hc; omega)
+    rw [hcore] at heq
+    cases heq
+    exact hfull h0l
+  subst hb
+  refine ⟨t1, by simp only [histStep, if_neg hneg, hcore], h1, e1, ?_⟩
+  intro x y p
+  rw [hh1, hh]
+  simp only [List.map_append, List.mem_append, List.map_cons, List.map_nil, List.mem_singleton]
+
+theorem hist_specF : ∀ (ops : List HOp) (t0 : RTree) (rs0 : List HRes) (pre0 : List (Int × Int × Int)),
+    RootOK t0 → (∀ x y p, holds 4 t0 x y p ↔ (x, y, p) ∈ pre0.map toNat3) →
+    ∃ t rs, ops.foldlM (histStep 4) (t0, rs0) = .ok (t, rs0 ++ rs) ∧ RootOK t ∧
+      (∀ x y p, holds 4 t x y p ↔ (x, y, p) ∈ (pre0 ++ goodAdds ops).map toNat3) ∧
+      AllOKF (annotF pre0 ops) rs ∧
+      (goodAdds ops).foldlM (fun t c => addRoot t c.1 c.2.1 c.2.2) t0 = .ok t
+  | [], t0, rs0, pre0, h0, hh =>
+    ⟨t0, [], by rw [List.foldlM_nil, List.append_nil]; rfl, h0, by simpa [goodAdds] using hh,
+      by simp [annotF, AllOKF], rfl⟩
+  | .read :: ops, t0, rs0, pre0, h0, hh => by
+    obtain ⟨t, rs, e, ht, hht, hf, hb⟩ :=
+      hist_specF ops t0 (rs0 ++ [.pairs (emit 4 t0)]) pre0 h0 hh
+    refine ⟨t, .pairs (emit 4 t0) :: rs, ?_, ht, by simpa [goodAdds] using hht, ?_, by simpa [goodAdds] using hb⟩
+    · rw [List.foldlM_cons]
+      have : histStep 4 (t0, rs0) .read = .ok (t0, rs0 ++ [.pairs (emit 4 t0)]) := rfl
+      rw [this]
+      simp only [List.append_assoc, List.singleton_append] at e
+      exact e
+    · simp only [annotF, AllOKF]
+      refine ⟨?_, hf⟩
+      show Exact (pre0.map toNat3) (emit 4 t0)
+      intro x y p
+      have hc := emit_count 4 t0 h0.1 x y p
+      by_cases hm : (x, y, p) ∈ pre0.map toNat3
+      · rw [if_pos hm]; exact hc.1 ((hh x y p).2 hm)
+      · rw [if_neg hm]; exact hc.2 (fun h => hm ((hh x y p).1 h))
+  | .add cx cy cp :: ops, t0, rs0, pre0, h0, hh => by
+    by_cases hc : InRange (cx, cy, cp)
+    · obtain ⟨t1, hs, h1, e1, hh1⟩ := histStep_good t0 rs0 pre0 cx cy cp h0 hh hc
+      obtain ⟨t, rs, e, ht, hht, hf, hbt⟩ :=
+        hist_specF ops t1 (rs0 ++ [.added false]) (pre0 ++ [(cx, cy, cp)]) h1 hh1
+      refine ⟨t, .added false :: rs, ?_, ht, ?_, ?_, ?_⟩
+      · rw [List.foldlM_cons, hs]
+        simp only [List.append_assoc, List.singleton_append] at e
+        exact e
+      · intro x y p
+        rw [hht]
+        simp only [goodAdds, if_pos hc, List.append_assoc, List.singleton_append]
+      · simp only [annotF, AllOKF, if_pos hc]
+        exact ⟨⟨hc, rfl⟩, hf⟩
+      · simp only [goodAdds, if_pos hc, List.foldlM_cons]
+        rw [e1]
+        exact hbt
+    · have hs := histStep_bad t0 rs0 cx cy cp h0 hc
+      obtain ⟨t, rs, e, ht, hht, hf, hbt⟩ :=
+        hist_specF ops t0 (rs0 ++ [.raised .valueError]) pre0 h0 hh
+      refine ⟨t, .raised .valueError :: rs, ?_, ht, ?_, ?_, ?_⟩
+      · rw [List.foldlM_cons, hs]
+        simp only [List.append_assoc, List.singleton_append] at e
+        exact e
+      · intro x y p
+        rw [hht]
+        simp only [goodAdds, if_neg hc]
+      · simp only [annotF, AllOKF, if_neg hc]
+        exact ⟨⟨hc, rfl⟩, hf⟩
+      · simp only [goodAdds, if_neg hc]
+        exact hbt
+
+theorem allOKF_get : ∀ (a : List HOp) (op : HOp) (b : List HOp) (pre : List (Int × Int × Int)) (rs : List HRes),
+    AllOKF (annotF pre (a ++ op :: b)) rs → ∃ r, rs[a.length]? = some r ∧ ResOKF (pre ++ goodAdds a, op) r
+  | [], op, b, pre, rs, h => by
+    cases op <;> cases rs <;> simp only [List.nil_append, annotF, AllOKF] at h
+    · exact ⟨_, rfl, by simpa [goodAdds] using h.1⟩
+    · exact ⟨_, rfl, by simpa [goodAdds] using h.1⟩
+  | .read :: a, op, b, pre, rs, h => by
+    cases rs with
+    | nil => simp only [List.cons_append, annotF, AllOKF] at h
+    | cons r rs =>
+      simp only [List.cons_append, annotF, AllOKF] at h
+      obtain ⟨r', h1, h2⟩ := allOKF_get a op b pre rs h.2
+      exact ⟨r', by simpa using h1, by simpa [goodAdds] using h2⟩
+  | .add x y p :: a, op, b, pre, rs, h => by
+    cases rs with
+    | nil => simp only [List.cons_append, annotF, AllOKF] at h
+    | cons r rs =>
+      simp only [List.cons_append, annotF, AllOKF] at h
+      obtain ⟨r', h1, h2⟩ := allOKF_get a op b _ rs h.2
+      refine ⟨r', by simpa using h1, ?_⟩
+      by_cases hc : InRange (x, y, p)
+      · simpa [goodAdds, hc] using h2
+      · simpa [goodAdds, hc] using h2
+
 end Rig.C12
